@@ -115,18 +115,24 @@ class GenericContextProvider(RoleProvider):
                     # use "regular" way to update via transaction manager
                     self._logger.info('update %s, handle=%s', proposed_st.NODETYPE.localname, proposed_st.Handle)
                     # handle changed ContextAssociation
+                    # (binding data is set in old_state_container, it is not copied from proposed_st, see below)
                     if (
                         old_state_container.ContextAssociation == pm_types.ContextAssociation.ASSOCIATED
                         and proposed_st.ContextAssociation != pm_types.ContextAssociation.ASSOCIATED
                     ):
-                        proposed_st.UnbindingMdibVersion = mgr.new_mdib_version
-                        proposed_st.BindingEndTime = time.time()
+                        if proposed_st.ContextAssociation != pm_types.ContextAssociation.DISASSOCIATED:
+                            msg = f'associated state {proposed_st.Handle} can only become disassociated'
+                            raise ValueError(msg)
+                        old_state_container.UnbindingMdibVersion = mgr.new_mdib_version
+                        old_state_container.BindingEndTime = time.time()
                     elif (
                         old_state_container.ContextAssociation != pm_types.ContextAssociation.ASSOCIATED
                         and proposed_st.ContextAssociation == pm_types.ContextAssociation.ASSOCIATED
                     ):
-                        proposed_st.BindingMdibVersion = mgr.new_mdib_version
-                        proposed_st.BindingStartTime = time.time()
+                        old_state_container.BindingMdibVersion = mgr.new_mdib_version
+                        old_state_container.BindingStartTime = time.time()
+                        old_state_container.UnbindingMdibVersion = None
+                        old_state_container.BindingEndTime = None
                         handles = self._mdib.xtra.disassociate_all(
                             entity,
                             unbinding_mdib_version=mgr.new_mdib_version,
